@@ -775,6 +775,8 @@ def check_pop(tools, pop):
 
 def stage(rep, tools, focus):
     """Run the populations planned for property `focus`; report every population with a per-message difference as a failing input."""
+    import time
+    t0 = time.time()
     rng = random.Random(rep.seed * 104729 + sum(map(ord, focus)))
     it = IsoTools(tools)
     pops = populations(focus, rep.tier, rng)
@@ -805,6 +807,7 @@ def stage(rep, tools, focus):
                                              replay_cmd='python3 tools/check.py %s --replay <this file>' % rep.prop,
                                              replay={'conf': p.conf, 'dirs': p.dirs, 'walk': p.walk, 'family': p.family,
                                                      'msgs': [[m.id, m.md, m.sub, m.name, m.data.hex(), m.tag] for m in p.msgs]}))
+    st['wall_s'] = round(time.time() - t0, 1)
     st['rule'] = ('%d populations of 2-6 messages (%s): the real binary once over the whole population, once per message alone and once on the empty '
                   'maildirs, each with -d and for real, under the shim; per message: place, flags, name (unique part blanked), content, '
                   'modification time, the helper\'s records of its commands, its -d lines; per run: exit status = maximum, diagnostics as '
